@@ -76,6 +76,7 @@ inductive Reader
 inductive Ev
   | got (a : Nat)          -- the body received an argument (result of co_yield)
   | anext (i : Item)       -- the consumer coroutine parked in `co_await gen.next()` continued
+  | sub (i : Item)         -- the consumer's callback awaiter (`gen.next(a).subscribe(&cb)`) was called and looked at the result
   | fawait (i : Item)      -- the coroutine parked in `co_await f` continued
   | fhas (b : Bool)        -- the coroutine parked in `co_await f.has_value()` continued
   | dtor (g : Nat)         -- guard g of the body was destroyed
@@ -116,10 +117,11 @@ structure State where
   fut      : FutSt
   reader   : Option Reader
   it       : Option Bool   -- generator_iterator::_next of the harness' iterator
+  subMode  : Bool          -- the external awaiter armed by the last `next_async` is a callback (`subscribe`), not a coroutine
   -- ghost
   script0  : List Act      -- the whole body
   lastArg  : Nat           -- argument of the most recent access
-  stuck    : Bool          -- next_async threw after storing _caller
+  stuck    : Bool          -- next_async threw (finished generator) after storing _caller
   ub       : Bool          -- a null `_caller` / `_arg` / `_ret` was dereferenced
   evs      : List Ev
   seen     : List Item     -- what the consumer's accesses delivered, one entry per completed access, in order
@@ -132,7 +134,7 @@ structure State where
 def init (mode : Bool) (script : List Act) : State :=
   { mode := mode, script := script, bst := .init, live := [], made := 0, resolved := [], alive := true,
     caller := .none, ifn := .null, arg := none, ret := none, exp := false, done := false, block := false,
-    awaiting := false, cons := .idle, fut := .none, reader := none, it := none,
+    awaiting := false, cons := .idle, fut := .none, reader := none, it := none, subMode := false,
     script0 := script, lastArg := 0, stuck := false, ub := false, evs := [], seen := [], obs := [], post := [],
     gotLog := [], dtors := [] }
 
@@ -174,9 +176,11 @@ def unblockFuture (s : State) : State :=
 /-- `resume_fn_sync` → `unblock_sync` -/
 def unblockSync (s : State) : State := { s with block := true }
 
-/-- the consumer coroutine continues in `next_awt::await_resume` -/
+/-- the external awaiter is resumed: the consumer coroutine continues in `next_awt::await_resume`, or the consumer's callback is
+called (and looks at `done()` / `value()`, like generator_aggregator's GenCallback consumer does) -/
 def resumeAwt (s : State) : State :=
-  { s with cons := .idle, seen := s.seen ++ [cur s], obs := s.obs ++ [cur s], evs := s.evs ++ [.anext (cur s)] }
+  { s with cons := .idle, seen := s.seen ++ [cur s], obs := s.obs ++ [cur s],
+           evs := s.evs ++ [if s.subMode then .sub (cur s) else .anext (cur s)] }
 
 def deliver (s : State) : State :=
   match s.caller with
@@ -274,13 +278,28 @@ def anextGo (s : State) : State × Res :=
   if s.done then ({ s with seen := s.seen ++ [.fin], post := s.post ++ [.fin], evs := s.evs ++ [.anext .fin] }, .unit)
   else if s.bst == .final then
     ({ s with caller := .awt, stuck := true, seen := s.seen ++ [.nomore], post := s.post ++ [.nomore], evs := s.evs ++ [.anext .nomore] }, .unit)
-  else (resumeBody { s with caller := .awt, cons := .parked }, .unit)
+  else (resumeBody { s with caller := .awt, cons := .parked, subMode := false }, .unit)
 
 def stepAnext (s : State) (a : Nat) : State × Res :=
   if !s.alive then (s, .gone)
   else if inSync s then (s, .blocked)
   else if s.caller != .none then (s, .busy)
   else anextGo (setArg s a)
+
+/-- `gen.next(a).subscribe(&cb)`: no `await_ready`; `next_async(cb)` **stores `_caller` first**, throws if `h.done()` (whether the body
+ended regularly or not), otherwise resumes the body at once. A callback that issues its next access from inside the notification
+(re-entrantly) is simply the next operation: `yield_suspend::await_suspend` touches nothing after it has notified the caller. -/
+def subGo (s : State) : State × Res :=
+  if s.bst == .final then
+    ({ s with caller := .awt, stuck := true, seen := s.seen ++ [.nomore], post := s.post ++ [.nomore],
+              evs := s.evs ++ [.sub .nomore] }, .unit)
+  else (resumeBody { s with caller := .awt, cons := .parked, subMode := true }, .unit)
+
+def stepSub (s : State) (a : Nat) : State × Res :=
+  if !s.alive then (s, .gone)
+  else if inSync s then (s, .blocked)
+  else if s.caller != .none then (s, .busy)
+  else subGo (setArg s a)
 
 def futRes (s : State) : State × Res :=
   (s, if s.fut == .pending then .pending else .ready)
@@ -384,7 +403,7 @@ def stepItIsEnd (s : State) : State × Res :=
     | some b => (s, .isEnd (!b))
 
 inductive Op
-  | syncBegin (a : Nat) | syncEnd | value | anext (a : Nat) | call (a : Nat)
+  | syncBegin (a : Nat) | syncEnd | value | anext (a : Nat) | sub (a : Nat) | call (a : Nat)
   | futWait | futGet | futAwait | futHas
   | itBegin | itInc | itDeref | itIsEnd | itPostInc | itDrop
   | complete (k : Nat) | destroy
@@ -395,6 +414,7 @@ def step (s : State) : Op → State × Res
   | .syncEnd => stepSyncEnd s
   | .value => stepValue s
   | .anext a => stepAnext s a
+  | .sub a => stepSub s a
   | .call a => stepCall s a
   | .futWait => stepFutWait s
   | .futGet => stepFutGet s
